@@ -65,6 +65,24 @@ Theorem C20_test_N_pos : forall N ngen eff maxN,
   (ngen < N)%nat -> 0 < eff -> eff <= 1 -> (1 <= maxN)%Z -> (1 <= test_N N ngen eff maxN)%Z.
 Proof. exact test_N_pos. Qed.
 Print Assumptions C20_test_N_pos.
+(* a supplied bound that dominates every weight is never changed: every event of every batch is then
+   accepted with one and the same M, i.e. with probability w / M (C20_accept_prob): exact
+   acceptance-rejection.  This is the regular stream of the density test of the harness. *)
+Theorem C20_valid_bound_kept : forall M0 ws, qmax_list ws <= M0 -> bound_of (Some M0) ws = M0.
+Proof. exact valid_bound_kept. Qed.
+Print Assumptions C20_valid_bound_kept.
+
+(* the code AS IT IS with max_weight=None (open finding multi_sampling / bound-from-accepted-batch): the
+   bound is 1.01 * the largest weight of the very batch that is accepted, so a batch of one event is
+   accepted iff u < 100/101 whatever its weight - the sample of a one-event request follows the
+   proposal, not the model density *)
+Theorem C20_none_bound_is_batch_max : forall ws, bound_of None ws == qmax_list ws * (101 # 100).
+Proof. exact none_bound_is_batch_max. Qed.
+Print Assumptions C20_none_bound_is_batch_max.
+Theorem C20_none_bound_single_event_weight_blind : forall u w, 0 < w ->
+  (accept u w (bound_of None [w]) = true <-> u < 100 # 101).
+Proof. exact none_bound_single_event_weight_blind. Qed.
+Print Assumptions C20_none_bound_single_event_weight_blind.
 End Acceptance.
 
 (* ===================== inverse-transform samplers (reals) ===================== *)
@@ -148,6 +166,23 @@ Example C20_nd_old_indexing_mismatch :
   coeff_lookup idx_coeff_old 2 1 = Some [true; false] /\ bits_weight 2 1 = [false; true].
 Proof. split; vm_compute; reflexivity. Qed.
 
+(* InterpND cell weights since the cell-volume repair of intgral_step: corner value / 2^n * cell volume.
+   One cell in one dimension: the two corner weights add up to the trapezoid area, the exact integral
+   of the interpolant over the cell (the quantity LinearInterp calls bin_int) *)
+Theorem C20_nd_cell_weight_1d_trapezoid : forall x0 x1 z0 z1 : Q,
+  (nd_cell_weight (nd_int_all_vol [[x0; x1]] [z0; z1]) 1 0 2 == (z0 + z1) / 2 * (x1 - x0))%Q.
+Proof. exact nd_cell_weight_1d_trapezoid. Qed.
+Print Assumptions C20_nd_cell_weight_1d_trapezoid.
+(* constant density on the nodes 0, 1, 3: the first cell gets 1 of 3 ... *)
+Example C20_nd_vol_nonuniform_example :
+  (nd_cell_weight (nd_int_all_vol [[0; 1; 3]] [1; 1; 1]) 2 0 2 == 1 /\
+   nd_cell_weight (nd_int_all_vol [[0; 1; 3]] [1; 1; 1]) 2 1 2 == 2)%Q.
+Proof. exact nd_vol_nonuniform_example. Qed.
+(* ... the weights of the code before the repair (nd_int_all: no volume factor) gave both cells the same *)
+Example C20_nd_old_no_volume_refuted :
+  (nd_cell_weight (nd_int_all [3%nat] [1; 1; 1]) 2 0 2 == nd_cell_weight (nd_int_all [3%nat] [1; 1; 1]) 2 1 2)%Q.
+Proof. exact nd_old_no_volume_refuted. Qed.
+
 (* ===================== bins and histograms (exact rationals) ===================== *)
 Section BinsHist.
 Local Open Scope Q_scope.
@@ -170,31 +205,56 @@ Theorem C20_split_box_count : forall bx idx cuts x,
 Proof. exact split_box_count. Qed.
 Print Assumptions C20_split_box_count.
 
-(* the whole split list of AdaptiveBound (np.percentile = oracle pct): a point of the base box
+(* the whole split list of AdaptiveBound (np.percentile = oracle pct, the upper-edge rule =
+   oracle up: x + 1e-6 in the code, any other rule in a future repair): a point of the base box
    lies in exactly one leaf box, a point outside in none *)
-Theorem C20_adaptive_partition : forall pct nss base pts x,
-  loop_ok pct nss [(base, pts)] ->
-  count_in x (map fst (loop_split pct nss [(base, pts)])) = if in_box x base then 1%nat else 0%nat.
+Theorem C20_adaptive_partition : forall pct up nss base pts x,
+  loop_ok pct up nss [(base, pts)] ->
+  count_in x (map fst (loop_split pct up nss [(base, pts)])) = if in_box x base then 1%nat else 0%nat.
 Proof. exact adaptive_partition. Qed.
 Print Assumptions C20_adaptive_partition.
 
-Theorem C20_adaptive_exactly_one : forall pct nss base pts x,
-  loop_ok pct nss [(base, pts)] -> in_box x base = true ->
-  exists! i, (i < length (loop_split pct nss [(base, pts)]))%nat /\
-             in_box x (nth i (map fst (loop_split pct nss [(base, pts)])) []) = true.
+Theorem C20_adaptive_exactly_one : forall pct up nss base pts x,
+  loop_ok pct up nss [(base, pts)] -> in_box x base = true ->
+  exists! i, (i < length (loop_split pct up nss [(base, pts)]))%nat /\
+             in_box x (nth i (map fst (loop_split pct up nss [(base, pts)])) []) = true.
 Proof. exact adaptive_exactly_one. Qed.
 Print Assumptions C20_adaptive_exactly_one.
 
-(* what the percentile contract (between min and max, monotone in the rank) gives: the cuts
-   of a box are in order between its bounds if its data stay 1e-6 below the upper bound *)
-Theorem C20_cuts_in_order : forall pct : list Q -> nat -> nat -> Q,
+(* every event of the data set lies in the base box (upper edge strictly above the maximum) *)
+Theorem C20_base_bound_contains : forall up ndim pts p, (forall x, x < up x) -> In p pts ->
+  (ndim <= length p)%nat -> in_box p (base_bound up ndim pts) = true.
+Proof. exact base_bound_contains. Qed.
+Print Assumptions C20_base_bound_contains.
+
+(* the reference instance used by the correspondence is such an upper-edge rule *)
+Theorem C20_up_ref_above : forall x, x < up_ref x.
+Proof. exact up_ref_above. Qed.
+Print Assumptions C20_up_ref_above.
+
+(* what the percentile contract (between min and max, monotone in the rank) and a monotone
+   upper-edge rule at or above its argument give: the cuts of a box are in order between its
+   bounds if the upper neighbour of each of its data is at most the upper bound *)
+Theorem C20_cuts_in_order : forall (pct : list Q -> nat -> nat -> Q) (up : Q -> Q),
+  (forall col j n, col <> [] -> qmin_l col <= pct col j n /\ pct col j n <= qmax_l col) ->
+  (forall col j k n, (j <= k)%nat -> pct col j n <= pct col k n) ->
+  (forall x y, x <= y -> up x <= up y) ->
+  (forall x, x <= up x) ->
+  forall col n lo hi,
+  col <> [] -> Forall (fun v => lo <= v) col -> Forall (fun v => up v <= hi) col ->
+  qsorted (lo :: cuts_of pct up col n ++ [hi]).
+Proof. exact cuts_in_order. Qed.
+Print Assumptions C20_cuts_in_order.
+
+(* the code as it is (up_old x = x + 1e-6): data 1e-6 below the upper bound *)
+Theorem C20_cuts_in_order_old_offset : forall pct : list Q -> nat -> nat -> Q,
   (forall col j n, col <> [] -> qmin_l col <= pct col j n /\ pct col j n <= qmax_l col) ->
   (forall col j k n, (j <= k)%nat -> pct col j n <= pct col k n) ->
   forall col n lo hi,
   col <> [] -> Forall (fun v => lo <= v) col -> Forall (fun v => v + eps6 <= hi) col ->
-  qsorted (lo :: cuts_of pct col n ++ [hi]).
-Proof. exact cuts_in_order. Qed.
-Print Assumptions C20_cuts_in_order.
+  qsorted (lo :: cuts_of pct up_old col n ++ [hi]).
+Proof. exact cuts_in_order_old_offset. Qed.
+Print Assumptions C20_cuts_in_order_old_offset.
 
 (* near-equal populations, arithmetic core: the number of the m distinct values between
    consecutive n-quantile ranks differs from (m-1)/n by less than one *)
@@ -217,18 +277,69 @@ Theorem C20_hist_err2_populated : forall mask es evs i,
   nth i (hist_err2 mask es evs) 0 = nth i (hist es (sq_w evs)) 0.
 Proof. exact hist_err2_populated. Qed.
 Print Assumptions C20_hist_err2_populated.
+
+(* Hist1D.__add__ / __sub__ (after the repair).  The histogram of the union of two event sets
+   is the sum of the histograms: counts, sums of squared weights, unweighted counts *)
+Theorem C20_hist_add_counts : forall es a b,
+  Forall2 Qeq (hist es (a ++ b)) (vadd (hist es a) (hist es b)) /\
+  Forall2 Qeq (hist es (sq_w (a ++ b))) (vadd (hist es (sq_w a)) (hist es (sq_w b))) /\
+  Forall2 Qeq (hist es (unit_w (a ++ b))) (vadd (hist es (unit_w a)) (hist es (unit_w b))).
+Proof. exact hist_add_counts. Qed.
+Print Assumptions C20_hist_add_counts.
+
+(* a bin of the union is empty (error = inf) exactly where both components are *)
+Theorem C20_hist_add_empty : forall es a b,
+  hist_empty es (a ++ b) = hist_add_empty (hist_empty es a) (hist_empty es b).
+Proof. exact hist_add_empty_union. Qed.
+Print Assumptions C20_hist_add_empty.
+
+(* on every bin populated in the union, the repaired error rule applied to the two component
+   histograms gives the squared error of the histogram of the union (any mask value m) *)
+Theorem C20_hist_add_err2 : forall m es a b i,
+  nth i (hist_empty es (a ++ b)) true = false ->
+  nth i (hist_add_err2 (hist_err2 m es a) (hist_err2 m es b) (hist_empty es a) (hist_empty es b)) 0
+  == nth i (hist es (sq_w (a ++ b))) 0.
+Proof. exact hist_add_union. Qed.
+Print Assumptions C20_hist_add_err2.
 End BinsHist.
 
 (* ===================== partial / not proved ===================== *)
 (* "populations within one of equal" for the code's own cuts needs np.percentile's rank
-   arithmetic (virtual index j/n*(m-1), +1e-6 offset, gaps > 1e-6): kept as a statement, tied
-   numerically on every adaptive case (pop_within_one on the implementation's populations). *)
+   arithmetic (virtual index j/n*(m-1)) and an upper-edge rule up strictly above its argument
+   with no datum strictly between v and up v (the code's x + 1e-6 on data more than 1e-6 apart):
+   kept as a statement, tied numerically on every adaptive case of the regular stream
+   (pop_within_one on the implementation's populations).  With the absolute pad of the code
+   (up_old) it fails on data finer than 1e-6: C20_old_abs_offset_unequal_populations below
+   (open finding AdaptiveBound.base_bound / absolute-1e-6-pad). *)
 Definition C20_populations_full_statement : Prop :=
+  forall (up : Q -> Q), (forall x, x < up x) ->
   forall (col : list Q) (n j : nat), (1 <= j <= n)%nat -> NoDup col ->
-  let lo := if Nat.eqb j 1 then qmin_l col - eps6 else qpercentile col (j - 1) n + eps6 in
-  let hi := if Nat.eqb j n then qmax_l col + eps6 else qpercentile col j n + eps6 in
+  (forall v w, In v col -> In w col -> ~ (v < w /\ w < up v))%Q ->
+  (forall k, ~ exists w, In w col /\ (qpercentile col k n < w /\ w < up (qpercentile col k n))%Q) ->
+  let lo := if Nat.eqb j 1 then (qmin_l col - eps6)%Q else up (qpercentile col (j - 1) n) in
+  let hi := if Nat.eqb j n then up (qmax_l col) else up (qpercentile col j n) in
   pop_within_one (Z.of_nat (length col)) (Z.of_nat n)
                  (Z.of_nat (length (filter (fun v => in_ho v lo hi) col))) = true.
+
+(* the absolute pad of the code (open finding) and the old Hist1D sum rule, refuted on concrete inputs *)
+(* 8 events 1e-7 apart split in 2: with the + 1e-6 pad the first cut lies above all of them *)
+Example C20_old_abs_offset_unequal_populations :
+  map (fun bd => length (snd bd))
+      (split_one qpercentile up_old 0 2 (base_bound up_old 1 fine_pts, fine_pts)) = [8; 0]%nat
+  /\ pop_within_one 8 2 8 = false.
+Proof. exact old_abs_offset_unequal_populations. Qed.
+Example C20_new_offset_equal_populations :
+  map (fun bd => length (snd bd))
+      (split_one qpercentile up_ref 0 2 (base_bound up_ref 1 fine_pts, fine_pts)) = [4; 4]%nat
+  /\ pop_within_one 8 2 4 = true.
+Proof. exact new_offset_equal_populations. Qed.
+(* sqrt(e1^2 + e2^2) with inf on empty bins marked a bin empty where EITHER component was *)
+Example C20_old_hist_add_inf_refuted :
+  let es := [0; 1 # 2; 1]%Q in let a := [(1 # 10, 1)]%Q in let b := [(8 # 10, 1)]%Q in
+  hist_add_empty_old (hist_empty es a) (hist_empty es b) = [true; true] /\
+  hist_empty es (a ++ b) = [false; false] /\
+  hist_add_empty (hist_empty es a) (hist_empty es b) = [false; false].
+Proof. exact old_hist_add_inf_refuted. Qed.
 
 (* non-vacuity *)
 Example C20_example_chain : chain_ok (cal_coeffs (1 / 10000000000) [0; 1; 3]%R [1; 2; 0]%R).
